@@ -136,6 +136,14 @@ Theorem c16_sequential_reachable : forall cf t0 ops, reachable cf (seq_run cf t0
 Proof. exact reachable_seq_run. Qed.
 Print Assumptions c16_sequential_reachable.
 
+(* in particular for every sequential history (stat.Metrics periods included: the model has no state besides
+   the executor's own -- no log switch, no report writer -- so what Execute receives cannot depend on whether a
+   consumer of the report exists yet): at rest, every task handed to the executor has reached Execute exactly once *)
+Theorem c16_sequential_all_executed : forall cf t0 ops,
+  quiescent (seq_run cf t0 ops) -> all_executed_once (places_of (seq_run cf t0 ops)).
+Proof. intros cf t0 ops. apply (quiescent_all_executed cf). apply reachable_seq_run. Qed.
+Print Assumptions c16_sequential_all_executed.
+
 (* ---- non-vacuity ---- *)
 Definition ex_cfg : config := mkcfg false 2 (fun _ => 0) 1000000000.
 
